@@ -46,6 +46,14 @@ func (s *sink) Write(p []byte) (int, error) {
 	return len(p), nil
 }
 
+type userObj struct{ g, k int }
+
+func (o userObj) MarshalZerologObject(e *zerolog.Event) { e.Int("og", o.g).Int("ok", o.k) }
+
+type userArr struct{ g, k int }
+
+func (a userArr) MarshalZerologArray(arr *zerolog.Array) { arr.Int(a.g).Int(a.k) }
+
 func main() {
 	bad := []string{}
 	rounds := 12
@@ -63,6 +71,24 @@ func main() {
 			zlog.Logger = base
 			G, K := 8, 60
 			var wg sync.WaitGroup
+			// the global switches are read on every event: another goroutine keeps storing (values that filter nothing)
+			stop := make(chan struct{})
+			togglerDone := make(chan struct{})
+			go func() {
+				defer close(togglerDone)
+				for i := 0; ; i++ {
+					select {
+					case <-stop:
+						zerolog.SetGlobalLevel(zerolog.TraceLevel)
+						zerolog.DisableSampling(false)
+						return
+					default:
+					}
+					zerolog.SetGlobalLevel(zerolog.Level(-1 + i%2)) // Trace / Debug: Info events always pass
+					zerolog.DisableSampling(i%2 == 0)
+					runtime.Gosched()
+				}
+			}()
 			for g := 0; g < G; g++ {
 				wg.Add(1)
 				go func(g int) {
@@ -78,6 +104,10 @@ func main() {
 						}
 						e = e.Int("g", g).Int("k", k)
 						switch k % 5 {
+						case 0:
+							if k%10 == 0 {
+								e = e.Object("o", userObj{g, k}).Array("ua", userArr{g, k})
+							}
 						case 1:
 							e = e.Dict("d", zerolog.Dict().Int("x", g*1000+k))
 						case 2:
@@ -94,6 +124,8 @@ func main() {
 				}(g)
 			}
 			wg.Wait()
+			close(stop)
+			<-togglerDone
 			seen := map[string]int{}
 			for _, ln := range s.lines {
 				var m map[string]interface{}
@@ -108,6 +140,12 @@ func main() {
 				}
 				if a, ok := m["a"].([]interface{}); ok && (int(a[0].(float64)) != g || int(a[1].(float64)) != k) {
 					bad = append(bad, fmt.Sprintf("event %d/%d carries another event's array", g, k))
+				}
+				if o, ok := m["o"].(map[string]interface{}); ok && (int(o["og"].(float64)) != g || int(o["ok"].(float64)) != k) {
+					bad = append(bad, fmt.Sprintf("event %d/%d carries another event's object", g, k))
+				}
+				if a, ok := m["ua"].([]interface{}); ok && (int(a[0].(float64)) != g || int(a[1].(float64)) != k) {
+					bad = append(bad, fmt.Sprintf("event %d/%d carries another event's marshaled array", g, k))
 				}
 				if c, ok := m["child"]; ok && int(c.(float64)) != g {
 					bad = append(bad, fmt.Sprintf("event %d/%d carries child=%v", g, k, c))
